@@ -221,7 +221,8 @@ v("C16", "b1-referer-full-url", "break", "middleware/csrf/csrf.go", "referer = r
 v("C16", "b2-put-is-safe", "break", "middleware/csrf/csrf.go", "case fiber.MethodGet, fiber.MethodHead, fiber.MethodOptions, fiber.MethodTrace:", "case fiber.MethodGet, fiber.MethodHead, fiber.MethodOptions, fiber.MethodTrace, fiber.MethodPut:", "method-switch", "PUT bypasses the token")
 v("C16", "b3-missing-token-in-store-ok-for-https", "break", "middleware/csrf/csrf.go", "\t\t\tif raw == nil {\n\t\t\t\t// If token is not in storage, expire the cookie", "\t\t\tif raw == nil && c.Scheme() != \"https\" {\n\t\t\t\t// If token is not in storage, expire the cookie", "token-in-store", "forged token passes on https")
 v("C16", "b4-cookie-compare-dropped", "break", "middleware/csrf/csrf.go", "if !isFromCookie(cfg.Extractor) && !compareStrings(extractedToken, c.Cookies(cfg.CookieName)) {", "if !isFromCookie(cfg.Extractor) && extractedToken == \"\" {", "cookie-matches", "double submit comparison gone")
-v("C16", "b5-single-use-not-consumed", "break", "middleware/csrf/csrf.go", "\t\t\t\tdeleteTokenFromStorage(c, extractedToken, cfg, sessionManager, storageManager)\n\t\t\t} else {", "\t\t\t\ttoken = \"\"\n\t\t\t} else {", "single-use", "single-use token replayable")
+v("C16", "b5-single-use-not-consumed", "break", "middleware/csrf/csrf.go", "\t\t\t\tif err := deleteTokenFromStorage(c, extractedToken, cfg, sessionManager, storageManager); err != nil {\n\t\t\t\t\treturn cfg.ErrorHandler(c, err)\n\t\t\t\t}\n\t\t\t} else {", "\t\t\t\ttoken = \"\"\n\t\t\t} else {", "single-use", "single-use token replayable")
+v("C16", "b10-consume-error-ignored", "break", "middleware/csrf/csrf.go", "\t\t\t\tif err := deleteTokenFromStorage(c, extractedToken, cfg, sessionManager, storageManager); err != nil {\n\t\t\t\t\treturn cfg.ErrorHandler(c, err)\n\t\t\t\t}\n", "\t\t\t\t_ = deleteTokenFromStorage(c, extractedToken, cfg, sessionManager, storageManager)\n", "failure-rejects", "reverts F36: a token that could not be consumed admits the request")
 v("C16", "b6-safe-adopts-unknown-cookie", "break", "middleware/csrf/csrf.go", "\t\t\t\tif raw != nil {\n\t\t\t\t\ttoken = cookieToken // Token is valid, safe to set it\n\t\t\t\t}", "\t\t\t\t_ = raw\n\t\t\t\ttoken = cookieToken // Token is valid, safe to set it", "token-provenance", "client-chosen token gets issued")
 v("C16", "b7-origin-error-ignored-when-referer", "break", "middleware/csrf/csrf.go", "\t\t\tif err != nil {\n\t\t\t\treturn cfg.ErrorHandler(c, err)\n\t\t\t}\n\n\t\t\t// Extract token", "\t\t\tif err != nil && !errors.Is(err, ErrRefererNotFound) {\n\t\t\t\treturn cfg.ErrorHandler(c, err)\n\t\t\t}\n\n\t\t\t// Extract token", "origin-or-referer-ok", "https request without referer passes")
 v("C16", "n1-if-chain", "benign", "middleware/csrf/csrf.go", "\t\t\tif extractedToken == \"\" {\n\t\t\t\treturn cfg.ErrorHandler(c, ErrTokenNotFound)\n\t\t\t}", "\t\t\tif len(extractedToken) == 0 {\n\t\t\t\treturn cfg.ErrorHandler(c, ErrTokenNotFound)\n\t\t\t}", why="len()==0 instead of == \"\"")
@@ -339,8 +340,8 @@ v("C14", "b10-scratch-buffer-to-storage", "break", "middleware/cache/manager.go"
 v("C14", "n3-marshal-into-named-local", "benign", "middleware/cache/manager.go", "\t\tif raw, err := it.MarshalMsg(nil); err == nil {\n\t\t\t_ = m.storage.Set(key, raw, exp)", "\t\tencoded, err := it.MarshalMsg(nil)\n\t\tif err == nil {\n\t\t\t_ = m.storage.Set(key, encoded, exp)", why="same fresh allocation, different local name and statement form")
 v("C15", "b8-id-view-of-header", "break", "middleware/session/store.go", "\t\tid = string(c.Request().Header.Peek(s.sessionName))", "\t\tid = c.Get(s.sessionName)", "private-copy", "the id aliases the request header buffer")
 v("C15", "n3-id-explicit-copy", "benign", "middleware/session/store.go", "\t\tid = string(c.Request().Header.Peek(s.sessionName))", "\t\tid = utils.CopyString(c.Get(s.sessionName))", why="explicit copy instead of the conversion")
-v("C16", "b9-store-session-delete-not-saved", "break", "middleware/csrf/session_manager.go", "\t\tstoreSess.Delete(sessionKey)\n\t\tif err := storeSess.Save(); err != nil {\n\t\t\tlog.Warn(\"csrf: failed to save session: \", err)\n\t\t}\n", "\t\tstoreSess.Delete(sessionKey)\n", "Delete-then-Save", "a deleted token stays in the store")
-v("C16", "n2-save-error-named", "benign", "middleware/csrf/session_manager.go", "\t\tstoreSess.Delete(sessionKey)\n\t\tif err := storeSess.Save(); err != nil {\n\t\t\tlog.Warn(\"csrf: failed to save session: \", err)\n\t\t}\n", "\t\tstoreSess.Delete(sessionKey)\n\t\tsaveErr := storeSess.Save()\n\t\tif saveErr != nil {\n\t\t\tlog.Warn(\"csrf: failed to save session: \", saveErr)\n\t\t}\n", why="same call, error in a named local")
+v("C16", "b9-store-session-delete-not-saved", "break", "middleware/csrf/session_manager.go", "\tstoreSess.Delete(sessionKey)\n\tif err := storeSess.Save(); err != nil {\n\t\tlog.Warn(\"csrf: failed to save session: \", err)\n\t\treturn err //nolint:wrapcheck // the store's error is the caller's error\n\t}\n\treturn nil\n}", "\tstoreSess.Delete(sessionKey)\n\treturn nil\n}", "Delete-then-Save", "a deleted token stays in the store")
+v("C16", "n2-save-error-named", "benign", "middleware/csrf/session_manager.go", "\tstoreSess.Delete(sessionKey)\n\tif err := storeSess.Save(); err != nil {\n\t\tlog.Warn(\"csrf: failed to save session: \", err)\n\t\treturn err //nolint:wrapcheck // the store's error is the caller's error\n\t}\n\treturn nil\n}", "\tstoreSess.Delete(sessionKey)\n\tsaveErr := storeSess.Save()\n\tif saveErr != nil {\n\t\tlog.Warn(\"csrf: failed to save session: \", saveErr)\n\t}\n\treturn saveErr\n}", why="same call, error in a named local")
 v("C17", "b8-default-next-idempotent-methods", "break", "middleware/idempotency/config.go", "return fiber.IsMethodSafe(c.Method())", "return fiber.IsMethodIdempotent(c.Method())", "safe-methods-only", "PUT/DELETE bypass the middleware")
 v("C17", "n2-default-next-if-form", "benign", "middleware/idempotency/config.go", "\t\treturn fiber.IsMethodSafe(c.Method())", "\t\tif fiber.IsMethodSafe(c.Method()) {\n\t\t\treturn true\n\t\t}\n\t\treturn false", why="same predicate written with an if")
 v("C19", "b10-normalize-drops-port", "break", "middleware/cors/utils.go", "return true, strings.ToLower(parsedOrigin.Scheme + \"://\" + parsedOrigin.Host)", "return true, strings.ToLower(parsedOrigin.Scheme + \"://\" + strings.TrimSuffix(parsedOrigin.Host, \":443\"))", "scheme-and-host-verbatim", "the port is cut off whatever the scheme")
